@@ -190,3 +190,97 @@ def completeness(ctx, fx, file, field_key, sentinels, name_rx=r"Iterator>::next$
                           fn.file, fn.line)
     ctx.instance(rule + ".enumerators", n)
     return n
+
+
+def tombstone_value(fns, field_key, sentinels):
+    """the sentinel that removal code stores into the marker field as a constant"""
+    from vlib.mir import op_const as _oc
+    for fn in fns:
+        if not fn.id.rsplit("::", 1)[-1].startswith("remove"):
+            continue
+        for loc, st in fn.iter_locs():
+            if st[0] == "a" and len(st[1]) > 1 and st[1][-1] == "." + field_key and st[2][0] == "use":
+                c = _oc(st[2][1])
+                if c is not None and c[0] in sentinels:
+                    return c[0]
+    return None
+
+
+def probe_past_tombstones(ctx, fx, file, field_key, sentinels, name_rx=r"::insert", rule="R-PROBE"):
+    """open addressing: an insertion probe may not settle on a deleted slot while the rest of the probe path is
+    unsearched. From the edge taken when the slot marker equals the tombstone value, no store into the marker
+    field is reachable within the same loop iteration unless the path first takes the 'marker == empty' edge
+    (which proves the key is absent)."""
+    import re
+    rx = re.compile(name_rx)
+    fns = [Fn(fx.raw(fid)) for fid in fx.fn_ids(file) if "::tests::" not in fid and "{closure" not in fid]
+    tomb = tombstone_value(fns, field_key, sentinels)
+    ctx.extra["tombstone_value"] = tomb
+    if tomb is None:
+        return 0
+    empties = set(sentinels) - {tomb}
+    n = 0
+    for fn in fns:
+        if not rx.search(fn.id):
+            continue
+        ml = marker_loads(fn, field_key)
+        if not ml:
+            continue
+        order = {b: i for i, b in enumerate(fn.rpo())}
+        # edges (switch block -> target) for marker == v, per sentinel v
+        edges = defaultdict(set)
+        for loc, st in fn.iter_locs():
+            if st[0] == "a" and st[2][0] == "bin" and st[2][1] in ("Eq", "Ne") and len(st[1]) == 1:
+                for x, y in ((st[2][2], st[2][3]), (st[2][3], st[2][2])):
+                    c = op_const(y)
+                    if c is None or c[0] not in sentinels or op_local(x) not in ml:
+                        continue
+                    want = 1 if st[2][1] == "Eq" else 0
+                    for sb in fn.blocks():
+                        t = fn.term(sb)
+                        if t[0] == "sw" and op_local(t[1]) == st[1][0]:
+                            ev = fn.switch_edge_values(sb)
+                            explicit = [int(v) for v, _ in t[2]]
+                            for tgt, vals in ev.items():
+                                if want in vals or ("otherwise" in vals and want not in explicit):
+                                    edges[c[0]].add((sb, tgt))
+        for sb in fn.blocks():
+            t = fn.term(sb)
+            if t[0] == "sw" and op_local(t[1]) in ml:
+                for v, tgt in t[2]:
+                    if int(v) in sentinels:
+                        edges[int(v)].add((sb, tgt))
+        if not edges.get(tomb):
+            continue
+        n += 1
+        ctx.analysed_fns.add(fn.id)
+        cut = set()
+        for e in empties:
+            cut |= edges.get(e, set())
+        bad = None
+        for sb, tgt in sorted(edges[tomb]):
+            seen = {tgt}
+            work = [tgt]
+            while work and bad is None:
+                b = work.pop()
+                for st in fn.stmts(b):
+                    if st[0] == "a" and len(st[1]) > 1 and st[1][-1] == "." + field_key:
+                        bad = (b, st[3])
+                        break
+                for s in fn.succ(b):
+                    if (b, s) in cut or s in seen or order.get(s, 0) <= order.get(b, 0):
+                        continue            # empty-slot edge, visited, or back edge (next iteration)
+                    if fn.term(b)[0] == "call" and s == fn.term(b)[1].get("u"):
+                        continue
+                    seen.add(s)
+                    work.append(s)
+        ok = bad is None
+        ctx.obligation(rule, fn.id, "tombstone arm keeps probing", ok,
+                       sample={"fn": fn.id, "tombstone": tomb, "empty": sorted(empties), "tombstone_edges": len(edges[tomb])})
+        if not ok:
+            ctx.violation(rule, fn.id, "insert settles on a deleted slot",
+                          "the slot marker %s is written (line %s) on a path that starts at the 'marker == %d (deleted)' edge and "
+                          "never passes 'marker == empty' in the same probe step: a key stored further along the probe path "
+                          "gets a second copy" % (field_key, bad[1], tomb), fn.file, bad[1])
+    ctx.instance(rule + ".probes", n)
+    return n
